@@ -62,12 +62,17 @@ def _replace_strongly_coupled(
                 len(group) == 1 and coupling_structure.is_self_coupled(group[0])
             ):
                 disc_merged = DummyDiscipline(str(uuid.uuid4()))
+                # The strong couplings of the group;
+                # the ones of the other groups are real dependencies of the group.
+                group_couplings = strong_c.intersection(
+                    name for disc in group for name in disc.io.output_grammar
+                )
                 for disc in group:
                     disciplines_with_group.remove(disc)
                     # The strong couplings are not real dependencies of the MDA for
                     # derivatives computation.
                     disc_merged.io.input_grammar.update_from_names(
-                        set(disc.io.input_grammar) - strong_c
+                        set(disc.io.input_grammar) - group_couplings
                     )
                     disc_merged.io.output_grammar.update_from_names(
                         disc.io.output_grammar
@@ -126,13 +131,18 @@ def traverse_add_diff_io_mda(
         if disc_reduced in diff_ios_merged:
             diff_red_in = set(diff_ios_merged[disc_reduced][0])
             diff_red_out = set(diff_ios_merged[disc_reduced][1])
+            # The strong couplings of the group;
+            # the ones of the other groups are handled as any other input.
+            group_couplings = set(strong_couplings).intersection(
+                disc_reduced.io.output_grammar
+            )
 
             for disc in group:
                 # There is a need to differentiate with respect to all the inputs of
                 # the MDA that are also inputs of the discipline
                 # And we add all strong input couplings
                 # Finally we keep only the discipline inputs.
-                diff_in = diff_red_in.union(strong_couplings).intersection(
+                diff_in = diff_red_in.union(group_couplings).intersection(
                     disc.io.input_grammar
                 )
                 disc.add_differentiated_inputs(diff_in)
@@ -140,7 +150,7 @@ def traverse_add_diff_io_mda(
                 # It is simpler for the outputs because the outputs to be differentiated
                 # are the ones from the MDA.
 
-                diff_out = diff_red_out.union(strong_couplings).intersection(
+                diff_out = diff_red_out.union(group_couplings).intersection(
                     disc.io.output_grammar
                 )
                 disc.add_differentiated_outputs(diff_out)
